@@ -1,6 +1,6 @@
 SPECIFICATION Spec
 CONSTANTS
-  Base <- SmallBase
+  LimbBits <- SmallLimbBits
   N = 24
   BreakSub = FALSE
 INVARIANTS NatLaws ZLaws BoundLaws WideLaws
